@@ -157,6 +157,66 @@ class RunResult:
 
 ASAN_ENV = {'ASAN_OPTIONS': 'detect_leaks=0:abort_on_error=0:allocator_may_return_null=1:detect_stack_use_after_return=0:exitcode=99', 'UBSAN_OPTIONS': 'print_stacktrace=1:exitcode=99:halt_on_error=1'}
 
+def split_cases(path, nparts):
+    """split a case file at record boundaries into nparts files of about equal size; blob records (op 100) are repeated at the head of every part"""
+    import struct, mmap
+    size = os.path.getsize(path)
+    if nparts <= 1 or size < (8 << 20): return [path], 0
+    with open(path, 'rb') as f:
+        mm = mmap.mmap(f.fileno(), 0, access=mmap.ACCESS_READ)
+        pos = 0; bounds = []; blobs = []
+        while pos + 16 <= size:
+            magic, op, cid, n = struct.unpack_from('<IIII', mm, pos)
+            if magic != 0x5643345A: break
+            p = pos + 16
+            for _ in range(n):
+                if p + 4 > size: p = size + 1; break
+                p += 4 + struct.unpack_from('<I', mm, p)[0]
+            if p > size: break
+            if op == 100: blobs.append((pos, p))
+            else: bounds.append((pos, p))
+            pos = p
+        if pos != size or len(bounds) < 2 * nparts: mm.close(); return [path], 0       # malformed tail: let the single judge report it
+        head = b''.join(mm[a:b] for a, b in blobs)
+        # records are dealt round-robin: neighbouring records (same generator class, similar cost) end up in different parts
+        parts = ['%s.part%d' % (path, k) for k in range(nparts)]
+        fs = [open(pp, 'wb') for pp in parts]
+        for f2 in fs: f2.write(head)
+        for i, (a, b) in enumerate(bounds): fs[i % nparts].write(mm[a:b])
+        for f2 in fs: f2.close()
+        mm.close()
+    return parts, len(blobs)
+
+def judge_parallel(cases, faildir, timeout):
+    """run the Lean judge on the case file, split over the cores; returns (rc, merged stdout with one DISTINCT/DONE line, stderr)"""
+    parts, nblobs = split_cases(cases, min(12, os.cpu_count() or 1))
+    if len(parts) == 1:
+        rc, out, err, _ = run([MODEL, 'judge', cases, faildir], timeout=timeout); return rc, out, err
+    procs = []
+    e = dict(os.environ); e['LZ4V_SIGS'] = '1'
+    for i, pp in enumerate(parts):
+        fd = '%s_p%d' % (faildir, i); os.makedirs(fd, exist_ok=True)
+        procs.append((pp, subprocess.Popen([MODEL, 'judge', pp, fd], stdout=subprocess.PIPE, stderr=subprocess.PIPE, text=True, env=e, errors='replace')))
+    lines = []; sigs = set(); recs = 0; fails = 0; rc = 0; errs = ''; done = 0; t_end = time.time() + (timeout or 3000)
+    for pp, p in procs:
+        try: o, er = p.communicate(timeout=max(1, t_end - time.time()))
+        except subprocess.TimeoutExpired: p.kill(); o, er = p.communicate(); er += 'TIMEOUT'
+        errs += er[-300:]
+        if p.returncode not in (0, 1): rc = p.returncode
+        elif p.returncode == 1 and rc == 0: rc = 1
+        for l in o.splitlines():
+            if l.startswith('SIG '): sigs.add(l[4:])
+            elif l.startswith('DISTINCT '): pass
+            elif l.startswith('DONE '):
+                m = re.search(r'records=(\d+) fails=(\d+)', l)
+                if m: recs += int(m.group(1)); fails += int(m.group(2)); done += 1
+            else: lines.append(l)
+        try: os.unlink(pp)
+        except OSError: pass
+    lines.append('DISTINCT %d' % len(sigs))
+    if done == len(procs): lines.append('DONE records=%d fails=%d' % (recs - (len(parts) - 1) * nblobs, fails))
+    return rc, '\n'.join(lines) + '\n', errs
+
 def run_harness_and_judge(exe, mode, tier, seed, wd, tag, timeout=3000, extra_args=()):
     """runs `exe mode tier seed casefile crashfile`, then the Lean judge on the case file"""
     rr = RunResult(); t0 = time.time()
@@ -178,7 +238,7 @@ def run_harness_and_judge(exe, mode, tier, seed, wd, tag, timeout=3000, extra_ar
         where = ' <- '.join('%s %s' % (a, os.path.basename(b)) for a, b in fr[:4])
         rr.fails.append(dict(kind=kind, file=crash if os.path.exists(crash) else '', detail='%s | %s' % (summ, where), source='crash', rc=rc))
     if os.path.exists(cases) and os.path.getsize(cases) > 0:
-        rc2, out2, err2, _ = run([MODEL, 'judge', cases, os.path.join(wd, 'fails')], timeout=timeout)
+        rc2, out2, err2 = judge_parallel(cases, os.path.join(wd, 'fails'), timeout)
         for l in out2.splitlines():
             if l.startswith('FAIL '):
                 m = re.match(r'FAIL case=(\d+) op=(\d+) kind=(\S+) file=(\S+) detail=(.*)', l)
